@@ -73,6 +73,15 @@ def scenarios(tier):
                 name = "halt:%s-L%d-%s" % (shape, L, setup)
                 sc[name] = Scenario(name, mkcfg(sessions, markets=markets, agents=ags, events=ev), observer=make_running_observer(),
                                     meta=dict(halt_rules=rules))
+                if L <= 2 and setup == "two_markets_target0":
+                    # the rule's settings also carry the OBSOLETE key referenceMarket (announced as ignored), naming the other
+                    # market, whose price walks one step behind: the halt decision stays with the traded target's own price
+                    import copy
+                    ev3 = copy.deepcopy(ev)
+                    ev3["H"]["referenceMarket"] = "M1"
+                    n3 = "%s-obsolete_reference_key" % name
+                    sc[n3] = Scenario(n3, mkcfg(copy.deepcopy(sessions), markets=markets, agents=ags, events=ev3), observer=make_running_observer(),
+                                      meta=dict(halt_rules=rules))
                 if L <= 2 and len(sess) == 2 and setup in ("one_market", "two_markets_target0"):
                     # the same run with the rule listed under the LAST session instead of the first, and with other
                     # events (a price limit rule too wide to clip, a shock of the other market's fundamental) listed
